@@ -4,6 +4,7 @@
 # usage: tools/sensitivity.sh [pattern]
 cd "$(dirname "$0")/.." || exit 2
 pat="${1:-}"
+[ -x bin/vdrive ] || ./check setup || exit 2
 fail=0; n=0
 for m in mutants/*${pat}*.patch; do
   prop=$(sed -n 's/^# property: //p' "$m" | head -1)
@@ -16,7 +17,7 @@ for m in mutants/*${pat}*.patch; do
     echo "SKIP $m (does not apply)"; rm -rf "$tmp"; continue
   fi
   n=$((n+1))
-  out=$(bin/vdrive -prop "$prop" -tier quick -repo "$tmp" -noevidence -noshrink -replaydir "$tmp/replays" ${SENS_ARGS:-} 2>&1); rc=$?
+  out=$(bin/vdrive -verif "$(pwd)" -prop "$prop" -tier quick -repo "$tmp" -noevidence -noshrink -replaydir "$tmp/replays" ${SENS_ARGS:-} 2>&1); rc=$?
   rules=$(echo "$out" | sed -n 's/^violation: property=[^ ]* rule=\([^ ]*\).*/\1/p' | sort -u | tr '\n' ' ')
   if [ $rc -eq 1 ]; then echo "CAUGHT  $prop  $m  [$rules]"; else echo "MISSED  $prop  $m  (exit $rc) $(echo "$out" | tail -1)"; fail=1; fi
   rm -rf "$tmp"
